@@ -1343,9 +1343,29 @@ def dropped_errors(F, bodies, crate_prefixes=("cgt_",)):
     absence or a default in the caller, and whatever the caller was building goes on without the element"""
     from mir import Terms, parse_callee
     out = []
+    class _Item:      # stands for "the items of the iterator" where the refused value is not one named function's result
+        def __init__(self, short):
+            self.short = short
     for b in bodies:
         tb = None
         for i, t in b.calls():
+            m0 = parse_callee(t["callee"])[2]
+            if m0 == "flat_map" and "iter::traits::iterator::Iterator" in t["callee"]:
+                # `Result` is IntoIterator (0 or 1 item): flat_map over a closure returning Result<_, E> drops every Err silently
+                ga = t.get("gargs") or []
+                if len(ga) > 1 and ga[1].startswith("core::result::Result<") and any(p in ga[1] for p in crate_prefixes):
+                    out.append((b, b.loc(t["sp"]), _Item("the closure (" + ga[1].split("<", 1)[1].rsplit(",", 1)[-1].strip(" >").split("::")[-1] + ")"), "flat_map"))
+                continue
+            if m0 == "flatten" and "iter::traits::iterator::Iterator" in t["callee"]:
+                dty = t.get("dty") or ""
+                tb = tb or Terms(F, b, inline_depth=0)
+                src = tb.operand(t["args"][0]) if t.get("args") else None
+                # the flattened items are Results when the adaptor below maps through a workspace function returning Result
+                from mir import subterms as _st
+                hs = [F.bodies.get(x[1]) for x in _st(src) if isinstance(x, tuple) and x and x[0] in ("call", "fnitem") and isinstance(x[1], str)] if src else []
+                if "core::result::Result<" in dty and any(p in dty for p in crate_prefixes):
+                    out.append((b, b.loc(t["sp"]), _Item("the iterator's items"), "flatten"))
+                continue
             if "core::result::Result" not in t["callee"]:
                 continue
             m = parse_callee(t["callee"])[2]
